@@ -43,11 +43,24 @@ def plan_flags(a, timeout_ms):
 
 
 def schedule(r):
-    """Model event schedule realising the observed call on the repaired configuration: attempt k has ID k."""
+    """Model event schedule realising the observed call on the repaired configuration. The model's attempt k (ID k) is the k-th
+    attempt in SENDING order; the responder numbers the attempts in the order in which their requests reach its handler, which under
+    load (8 ms timeouts) need not be the same. The sending order is reconstructed as far as it is determined: the attempt whose
+    response was delivered / accepted is the LAST one sent; the others keep their relative order (they all timed out)."""
     plan, strict = r["plan"], r["plan"]["strict"]
     n_att = max(1, r["attempts"])
     evs = ["NewCall 1"]
     tid = [100]
+    order = list(range(1, n_att + 1))   # order[k-1] = the responder's number of the k-th attempt sent
+    acc0 = r.get("accepted") or []
+    final = None
+    if r["class"] == "ok" and 1 <= r["pay_att"] <= n_att:
+        final = r["pay_att"]
+    elif have_stats(r) and sum(1 for x in acc0 if x >= 1) == 1:
+        final = [i + 1 for i, x in enumerate(acc0) if x >= 1][0]
+    if final is not None and final != n_att:
+        order.remove(final)
+        order.append(final)
 
     def arrive(rid, att, kind):
         t = tid[0]
@@ -55,7 +68,8 @@ def schedule(r):
         return ["Respond %d (mkResp %d %d)" % (t, rid, att * 10 + KIND[kind]), "Lock %d" % t, "Deliver %d" % t]
 
     for k in range(1, n_att + 1):
-        a = plan["attempts"][min(k, len(plan["attempts"])) - 1]
+        ri = order[k - 1]
+        a = plan["attempts"][min(ri, len(plan["attempts"])) - 1]
         f = plan_flags(a, r["timeout_ms"])
         last = k == n_att
         if k > 1:
@@ -81,7 +95,7 @@ def schedule(r):
             # latency around the timeout / the cancellation: what was in time is read off the observation (the delivered
             # response, or a response the requester's onResponse accepted into this attempt's channel)
             acc = r.get("accepted") or []
-            if (last and r["class"] == "ok") or (have_stats(r) and k <= len(acc) and acc[k - 1] >= 1):
+            if (last and r["class"] == "ok") or (have_stats(r) and ri <= len(acc) and acc[ri - 1] >= 1):
                 if f["early"]:
                     in_time.append((k, "E"))
                 in_time.extend(normal)
@@ -95,7 +109,7 @@ def schedule(r):
                     break
         got = any(x[0] == k for x in in_time)
         for rid, kind in in_time:
-            evs += arrive(rid, k, kind)
+            evs += arrive(rid, ri, kind)
         if plan["cancel"] > 0 and last and r["class"] == "cancelled":
             evs += ["Cancel 1", "SelCancel %d" % k, "Dereg %d" % k]
         elif got:
@@ -105,7 +119,7 @@ def schedule(r):
         else:
             evs += ["Fire %d" % k, "SelTimeout %d" % k, "Dereg %d" % k]
         for rid, kind in late:
-            evs += arrive(rid, k, kind)
+            evs += arrive(rid, ri, kind)
     return evs
 
 
@@ -257,6 +271,11 @@ def intrinsic(r):
     code that has the property (argued one by one in docs/C17.md), so seeing one once is a violation. None = timing-dependent."""
     if r.get("panic"):
         return "panic in the request path"
+    budget = len(r["plan"]["attempts"])
+    if r["attempts"] > budget:
+        return "the remote handler ran %d times for one call, the retry budget is %d" % (r["attempts"], budget)
+    if r["class"] == "timeout" and r["attempts"] < budget and r.get("bkind") != "bad-responses":
+        return "the call ended with a timeout after %d attempts, the retry budget is %d" % (r["attempts"], budget)
     if r.get("bkind") == "bad-responses" and (r["class"] == "ok" or r.get("pay_kind") == "B"):
         return "a response for a procedure without a registered handler was delivered"
     if r["class"] == "ok":
@@ -371,6 +390,15 @@ def run(ck):
         if again is not None and [r for r in again if r["k"] == "shutdown" and not r.get("setup")]:
             sbad = evaluate_shutdown(ck, again, tag="shutdown_confirm", count=False)  # (a usable re-run only)
     report_shutdown(ck, sbad)
+    ck.obligations += 1
+    shut_ok = [r for r in recs if r["k"] == "shutdown" and not r.get("setup")]
+    ck.extra["shutdown_records_usable"] = len(shut_ok)
+    if len(shut_ok) < 2 or len(set(r["scenario"] for r in shut_ok)) < 2:
+        ck.fail_obligation("shutdown-floor", "only %d shutdown scenario(s) could be run (%s): at least one plain and one race-timeout "
+                           "record are required; set-up errors: %s" % (len(shut_ok), sorted(set(r["scenario"] for r in shut_ok)),
+                                                                       [r.get("setup") for r in recs if r["k"] == "shutdown" and r.get("setup")][:2]))
+    else:
+        ck.discharged += 1
     calls = [r for r in recs if r["k"] == "call"]
     for r in calls[:1] + [x for x in calls if x["class"] == "timeout"][:1] + [x for x in calls if not x["plan"]["strict"]][:1] + \
             [x for x in recs if x["k"] == "batch"][:1]:
